@@ -4,7 +4,7 @@ import json, os, subprocess
 HERE = os.path.dirname(os.path.dirname(os.path.abspath(__file__)))
 
 LEVEL_NOTE = ("Trusted base: go/packages+go/ssa (x/tools v0.29.0) SSA of the working tree; govc's SSA->SMT translation "
-              "(DESIGN.md section 2); z3 4.8.12 / z3 5.1.0 / cvc5 1.0; the spec functions and lemma schemas in /verif/spec; "
+              "(DESIGN.md sections I.3, I.4); z3 4.8.12 / z3 5.1.0 / cvc5 1.0; the spec functions and lemma schemas in /verif/spec; "
               "sequential execution, unbounded memory; assumed contracts of externals and every trusted/havocked callee are "
               "listed in the evidence file on every run.")
 
@@ -122,13 +122,13 @@ CLAIMS = {
 }
 
 NOT_APPLICABLE = {
- "C03": "whole-pipeline language inclusion + round trip against an independent decoder: needs a verified reference grammar of the ~70-state schema scanner and the loader protocol; no per-function contract in reach states it (DESIGN.md section 6)",
- "C06": "the recursion checker and Example() termination are graph algorithms over the Node interface family with dynamic dispatch and a type table threaded through recursive calls; a contract needs an inductive reachability predicate over the heap-allocated node graph (ghost graph + measure), which the built verifier has no support for (no heap-recursive predicates); not brought under contract in the time available (DESIGN.md part I section 5)",
- "C07": "the merge loop (allOfConstraintCompiler.extendWith/processType) works through dynamic dispatch over the Node family (Copy, SetInheritedFrom, AddChild) inside defer/recover re-throwing handlers; a contract strong enough to state 'own ++ inherited keys' needs contracts for the whole Node interface family, not done in the time available; the observed defect (additionalProperties true vs false merges silently) is documented in DESIGN.md part I section 7 but not claimed",
- "C08": "instance validity of the example against the generated OpenAPI schema needs an independent JSON Schema validator as oracle and a relation between two whole-pipeline outputs; no per-function contract states it (DESIGN.md section 6); the pooled-buffer half of the marshalers is claimed under C10",
+ "C03": "whole-pipeline language inclusion + round trip against an independent decoder: needs a verified reference grammar of the ~70-state schema scanner and the loader protocol; no per-function contract in reach states it (DESIGN.md I.6 and Part II section 6)",
+ "C06": "the recursion checker and Example() termination are graph algorithms over the Node interface family with dynamic dispatch and a type table threaded through recursive calls; a contract needs an inductive reachability predicate over the heap-allocated node graph (ghost graph + measure), which the built verifier has no support for (no heap-recursive predicates); not brought under contract in the time available (DESIGN.md I.6)",
+ "C07": "the merge loop (allOfConstraintCompiler.extendWith/processType) works through dynamic dispatch over the Node family (Copy, SetInheritedFrom, AddChild) inside defer/recover re-throwing handlers; a contract strong enough to state 'own ++ inherited keys' needs contracts for the whole Node interface family, not done in the time available; the observed defect (additionalProperties true vs false merges silently) is documented in DESIGN.md I.8 but not claimed",
+ "C08": "instance validity of the example against the generated OpenAPI schema needs an independent JSON Schema validator as oracle and a relation between two whole-pipeline outputs; no per-function contract states it (DESIGN.md I.6 and Part II section 6); the pooled-buffer half of the marshalers is claimed under C10",
  "C15": "Len() is computed by the ~70-state schema scanner and the enum scanner, which are not under contract (only the JSON document scanner is, and its Len clause is listed as not covered under C12); the boundary/idempotence/trailer clauses relate two runs on different texts (2-safety)",
- "C11": "quantifies over goroutine interleavings; the verifier is sequential (mutexes/Once are no-ops in its model), no permission logic for threads (DESIGN.md section 6)",
- "C14": "2-safety relation between two complete pipeline runs on different texts; self-composition is feasible for a loop body, not for scanner+loader+compiler (DESIGN.md section 6)",
+ "C11": "quantifies over goroutine interleavings; the verifier is sequential (mutexes/Once are no-ops in its model), no permission logic for threads (DESIGN.md I.6 and Part II section 6)",
+ "C14": "2-safety relation between two complete pipeline runs on different texts; self-composition is feasible for a loop body, not for scanner+loader+compiler (DESIGN.md I.6 and Part II section 6)",
 }
 
 def main():
@@ -149,7 +149,7 @@ def main():
                 "evidence_file": "/verif/evidence/%s.json" % pid,
                 "replay_cmd_template": "./bin/check --replay {path}",
                 "engine": "govc",
-                "level_claimed": {"category": "proof", "text": text, "design_ref": "DESIGN.md section " + ref},
+                "level_claimed": {"category": "proof", "text": text, "design_ref": "DESIGN.md Part I sections I.1, I.5 (" + ref.split()[-1] + ")"},
                 "level_note": LEVEL_NOTE,
                 "technique": tech,
             })
@@ -157,7 +157,7 @@ def main():
     for pid in props:
         if pid in CLAIMS:
             continue
-        reason = NOT_APPLICABLE.get(pid, "not yet claimed: contracts for this property have not been brought to a state where every obligation discharges on the unchanged tree (work in progress, see DESIGN.md section 5)")
+        reason = NOT_APPLICABLE.get(pid, "not yet claimed: contracts for this property have not been brought to a state where every obligation discharges on the unchanged tree (work in progress, see DESIGN.md I.6)")
         na.append({"property_id": pid, "reason": reason})
     m = {
         "version": 1,
